@@ -3,6 +3,7 @@ C08 — Year length and year kind describe the actual set of days in the year.
 -/
 import JulianVerif.Lemmas.Counts
 import JulianVerif.Lemmas.ReformLength
+import JulianVerif.Lemmas.YearKindSpec
 namespace JV.C08
 open JV Spec
 
@@ -62,5 +63,150 @@ theorem skipped_iff (R : Int) (hR : InI32 R) (c : Calendar) (hc : Calendar.mkRef
     · have := hpos hl; omega
     · simp only [Reform.Live] at hl
       exact rf.yearKind_between y (by omega) (by omega)
+
+/-- **the year kind, against the days of the calendar.**  A year lying wholly before the
+reformation (its Julian December 31 precedes R) is Common or Leap by the Julian rule and has
+its full 365/366 days; a year lying wholly at or after it (its Gregorian January 1 is not
+before R) is Common or Leap by the Gregorian rule with its full days; any other year is
+Skipped if it has no days, and otherwise ReformLeap or ReformCommon according to whether
+February 29 of that year is a date of the calendar (the clause defect D2 violated). -/
+theorem yearKind_spec (R : Int) (hR : InI32 R) (c : Calendar) (hc : Calendar.mkReforming R = .ok c)
+    (y : Int) :
+    (jdnOf .julian y .december 31 < R →
+        c.yearKind y = (if leap .julian y then .leap else .common)
+        ∧ c.yearLength y = yearLen .julian y)
+    ∧ (R ≤ jdnOf .gregorian y .january 1 →
+        c.yearKind y = (if leap .gregorian y then .leap else .common)
+        ∧ c.yearLength y = yearLen .gregorian y)
+    ∧ (¬ jdnOf .julian y .december 31 < R → ¬ R ≤ jdnOf .gregorian y .january 1 →
+        (c.yearLength y = 0 → c.yearKind y = .skipped)
+        ∧ (c.yearLength y ≠ 0 → HasFeb29 c y → c.yearKind y = .reformLeap)
+        ∧ (c.yearLength y ≠ 0 → ¬ HasFeb29 c y → c.yearKind y = .reformCommon)) := by
+  obtain ⟨rf, rfl, rfl, _⟩ := mk_reform R hR c hc
+  have hF := rf.hasFeb29_iff' hR hc y
+  have hle := rf.yP_le_yQ
+  have hlo := rf.label_order
+  have bP := Month.number_bounds rf.mP
+  have bQ := Month.number_bounds rf.mQ
+  have vP := rf.validP
+  have vQ := rf.validQ
+  have bLP := monthLen_bounds (leap .julian rf.yP) rf.mP
+  have bLQ := monthLen_bounds (leap .gregorian rf.yQ) rf.mQ
+  have hpos := rf.yearLength_pos
+  have hlo' : rf.yP < rf.yQ ∨ (rf.yP = rf.yQ ∧ (rf.mP.number < rf.mQ.number
+      ∨ (rf.mP.number = rf.mQ.number ∧ rf.dP + 2 ≤ rf.dQ))) := by
+    rcases hlo with a | ⟨e, a | ⟨e2, a⟩⟩
+    · exact Or.inl a
+    · exact Or.inr ⟨e, Or.inl a⟩
+    · exact Or.inr ⟨e, Or.inr ⟨by rw [e2], a⟩⟩
+  rw [rf.whollyJ_iff, rf.whollyG_iff]
+  refine ⟨?_, ?_, ?_⟩
+  · rintro (h | ⟨rfl, hm, hd⟩)
+    · exact ⟨rf.yearKind_lt y h, rf.yearLength_lt y h⟩
+    · have hlt : rf.yP < rf.yQ := by omega
+      have hdec : rf.mP = .december := Month.number_inj _ _ hm
+      refine ⟨?_, ?_⟩
+      · rw [rf.yearKind_lower hlt, if_pos ⟨hdec, hd⟩]
+      · rw [rf.yearLength_yP hlt, Reform.oP, hdec, hd]
+        cases h : leap .julian rf.yP <;> simp [daysBefore, yearLen, h]
+  · rintro (h | ⟨rfl, hm, hd⟩)
+    · exact ⟨rf.yearKind_gt y h, rf.yearLength_gt y h⟩
+    · have hlt : rf.yP < rf.yQ := by omega
+      have hjan : rf.mQ = .january := Month.number_inj _ _ hm
+      refine ⟨?_, ?_⟩
+      · rw [rf.yearKind_upper hlt, if_pos ⟨hjan, hd⟩]
+      · have hne : ¬ rf.yP = rf.yQ := by omega
+        rw [rf.yearLength_yQ, Reform.oP', if_neg hne, Reform.oQ, hjan, hd]
+        cases h : leap .gregorian rf.yQ <;> simp [daysBefore, yearLen, h]
+  · intro hnJ hnG
+    rcases Int.lt_trichotomy y rf.yP with h1 | h1 | h1
+    · exact absurd (Or.inl h1) hnJ
+    · subst h1
+      have hlive : 0 < rf.cal.yearLength rf.yP := hpos rf.yP (by simp [Reform.Live])
+      rcases Int.lt_or_eq_of_le hle with h2 | h2
+      · have hnd : ¬ (rf.mP = .december ∧ rf.dP = 31) := by
+          rintro ⟨a, b⟩; exact hnJ (Or.inr ⟨rfl, by rw [a]; rfl, b⟩)
+        refine ⟨by omega, ?_, ?_⟩
+        · intro _ hf
+          rw [rf.yearKind_lower h2, if_neg hnd]
+          rcases hF.mp hf with ⟨hl, h⟩ | ⟨hl, h⟩
+          · rw [if_pos]
+            refine ⟨?_, hl⟩
+            rcases h with a | ⟨_, a | ⟨a, b⟩⟩
+            · omega
+            · exact Or.inl (by rw [Reform.feb_number]; exact a)
+            · exact Or.inr ⟨Month.number_inj _ _ a, b⟩
+          · omega
+        · intro _ hf
+          rw [rf.yearKind_lower h2, if_neg hnd, if_neg]
+          rintro ⟨a, hl⟩
+          apply hf
+          apply hF.mpr
+          refine Or.inl ⟨hl, Or.inr ⟨rfl, ?_⟩⟩
+          rcases a with a | ⟨a, b⟩
+          · exact Or.inl (by rw [Reform.feb_number] at a; exact a)
+          · exact Or.inr ⟨by rw [a]; rfl, b⟩
+      · refine ⟨by omega, ?_, ?_⟩
+        · intro _ hf
+          rw [rf.yearKind_both h2, if_pos]
+          rcases hF.mp hf with ⟨hl, h⟩ | ⟨hl, h⟩
+          · left
+            refine ⟨?_, hl⟩
+            rcases h with a | ⟨_, a | ⟨a, b⟩⟩
+            · omega
+            · exact Or.inl (by rw [Reform.feb_number]; exact a)
+            · exact Or.inr ⟨Month.number_inj _ _ a, b⟩
+          · right
+            refine ⟨?_, hl⟩
+            rw [Reform.feb_number]
+            rcases h with a | ⟨_, a⟩
+            · omega
+            · exact a
+        · intro _ hf
+          rw [rf.yearKind_both h2, if_neg]
+          rintro (⟨a, hl⟩ | ⟨a, hl⟩)
+          · apply hf; apply hF.mpr
+            refine Or.inl ⟨hl, Or.inr ⟨rfl, ?_⟩⟩
+            rcases a with a | ⟨a, b⟩
+            · exact Or.inl (by rw [Reform.feb_number] at a; exact a)
+            · exact Or.inr ⟨by rw [a]; rfl, b⟩
+          · apply hf; apply hF.mpr
+            refine Or.inr ⟨hl, Or.inr ⟨h2, ?_⟩⟩
+            rw [Reform.feb_number] at a; exact a
+    · rcases Int.lt_trichotomy y rf.yQ with h2 | h2 | h2
+      · have h0 := rf.yearLength_between y h1 h2
+        exact ⟨fun _ => rf.yearKind_between y h1 h2, fun h => absurd h0 h, fun h => absurd h0 h⟩
+      · subst h2
+        have hlive : 0 < rf.cal.yearLength rf.yQ := hpos rf.yQ (by simp [Reform.Live])
+        have hnd : ¬ (rf.mQ = .january ∧ rf.dQ = 1) := by
+          rintro ⟨a, b⟩; exact hnG (Or.inr ⟨rfl, by rw [a]; rfl, b⟩)
+        refine ⟨by omega, ?_, ?_⟩
+        · intro _ hf
+          rw [rf.yearKind_upper h1, if_neg hnd, if_pos]
+          rcases hF.mp hf with ⟨hl, h⟩ | ⟨hl, h⟩
+          · omega
+          · refine ⟨?_, hl⟩
+            rw [Reform.feb_number]
+            rcases h with a | ⟨_, a⟩
+            · omega
+            · exact a
+        · intro _ hf
+          rw [rf.yearKind_upper h1, if_neg hnd, if_neg]
+          rintro ⟨a, hl⟩
+          apply hf; apply hF.mpr
+          refine Or.inr ⟨hl, Or.inr ⟨rfl, ?_⟩⟩
+          rw [Reform.feb_number] at a; exact a
+      · exact absurd (Or.inl h2) hnG
+
+/-- the reformation year of the built-in 1582 calendar has no February 29 and is
+ReformCommon; a reformation on Julian 29 February 300 makes year 300 ReformLeap (defect D2) -/
+theorem yearKind_examples :
+    Calendar.reform1582.yearKind 1582 = .reformCommon
+    ∧ (∀ c, Calendar.mkReforming 1830693 = .ok c → c.yearKind 300 = .reformLeap) := by
+  refine ⟨rfl, ?_⟩
+  intro c h
+  have : Calendar.mkReforming 1830693 = .ok (Calendar.reforming 1830693
+      (mkGap 300 .february 29 300 .march 2)) := rfl
+  rw [this] at h; cases h; rfl
 
 end JV.C08
